@@ -26,7 +26,7 @@ pub enum RStep {
 
 thread_local! {
     /// side channels of the nested receives, in the order deserialisation meets them
-    static SIDE: RefCell<VecDeque<IpcReceiver<Vec<RStep>>>> = RefCell::new(VecDeque::new());
+    static SIDE: RefCell<VecDeque<(IpcReceiver<Vec<RStep>>, bool)>> = RefCell::new(VecDeque::new());
 }
 
 impl Serialize for NestedRecv {
@@ -41,10 +41,30 @@ impl<'de> Deserialize<'de> for NestedRecv {
         let rx = SIDE.with(|s| s.borrow_mut().pop_front());
         let r = match rx {
             None => Err("no side channel left".to_string()),
-            // a receive - and the decode of what arrived - inside this Deserialize impl
-            Some(rx) => rx.try_recv().map_err(|e| format!("{:?}", e)),
+            // a receive - and the decode of what arrived - inside this Deserialize impl; the message is queued
+            // already, so the blocking flavour does not block (both flavours are used, alternating)
+            Some((rx, blocking)) => {
+                if blocking {
+                    rx.recv().map_err(|e| format!("{:?}", e))
+                } else {
+                    rx.try_recv().map_err(|e| format!("{:?}", e))
+                }
+            },
         };
         Ok(NestedRecv(r))
+    }
+}
+
+/// Serialises like `RStep::S(sender)` whose sender claims channel index 0 - without attaching anything.
+struct BadS;
+impl Serialize for BadS {
+    fn serialize<S: Serializer>(&self, serializer: S) -> Result<S::Ok, S::Error> {
+        serializer.serialize_newtype_variant("RStep", 1, "S", &0u64)
+    }
+}
+impl<'de> Deserialize<'de> for BadS {
+    fn deserialize<D: Deserializer<'de>>(_: D) -> Result<Self, D::Error> {
+        Ok(BadS)
     }
 }
 
@@ -85,9 +105,25 @@ fn build(slots: &[Value], path: &[u64], kept: &mut Vec<(Vec<u64>, Vec<Kept>)>) -
                 let mut p = path.to_vec();
                 p.push(n);
                 let (tx, rx) = ipc::channel::<Vec<RStep>>().unwrap();
-                SIDE.with(|q| q.borrow_mut().push_back(rx));
+                SIDE.with(|q| {
+                    let mut q = q.borrow_mut();
+                    let blocking = q.len() % 2 == 0;
+                    q.push_back((rx, blocking))
+                });
                 let inner = build(s.get("inner").and_then(|i| i.as_array()).map(|v| &v[..]).unwrap_or(&[]), &p, kept);
                 tx.send(inner).expect("side send");
+                steps.push(RStep::N(NestedRecv(Ok(Vec::new()))));
+            },
+            "NX" => {
+                // a message without attachments whose bytes name "the sender at channel index 0"
+                let (tx, rx) = ipc::channel::<Vec<BadS>>().unwrap();
+                tx.send(vec![BadS]).expect("side send");
+                let rx: IpcReceiver<Vec<RStep>> = rx.to_opaque().to();
+                SIDE.with(|q| {
+                    let mut q = q.borrow_mut();
+                    let blocking = q.len() % 2 == 0;
+                    q.push_back((rx, blocking))
+                });
                 steps.push(RStep::N(NestedRecv(Ok(Vec::new()))));
             },
             other => panic!("bad slot kind {}", other),
@@ -155,6 +191,16 @@ fn compare(slots: &[Value], got: Vec<RStep>, path: &[u64], kept: &mut Vec<(Vec<u
                             return Some(w);
                         }
                     },
+                }
+            },
+            (RStep::N(NestedRecv(r)), "NX") => {
+                // the mismatched payload must have been refused - and must not have been given anybody's endpoint
+                if let Ok(v) = r {
+                    return Some(format!(
+                        "frame {:?}: a nested message without attachments decoded into {} endpoint(s) it never carried",
+                        path,
+                        v.len()
+                    ));
                 }
             },
             _ => return Some(format!("frame {:?}: position {} has the wrong kind", path, j)),
